@@ -162,7 +162,7 @@ def expected_machine(Y, O, E, link):
     ], key=str)
 
 
-def c12(ctx, res):
+def c12(ctx, res, with_drops=True):
     r = ctx.roles
     te = _te(ctx, True)
     curs = cursor_adts(ctx)
@@ -222,7 +222,8 @@ def c12(ctx, res):
     # wrappers delegate direction and project the right component
     check_wrappers(ctx, res, [a for a, _ in curs])
     # owning iterators: Drop exhausts, then clears without dropping
-    check_owning_drops(ctx, res, "C12")
+    if with_drops:
+        check_owning_drops(ctx, res, "C12")
     res.assumptions.append("mirror/sibling agreement is a cross-check against the shared two-cursor step, not a proof of all interleavings")
 
 
@@ -411,6 +412,35 @@ def check_owning_drops(ctx, res, prop):
 
 
 # =====================================================================================================================
+#  buckets never move under the list (C07 / C04 "across every reallocation" / C13 transparency)
+# =====================================================================================================================
+def no_bucket_relocation(ctx, res, prop):
+    """The list is intrusive: its links are raw pointers into the table's buckets.  hashbrown's growing primitives (insert, reserve,
+    try_reserve, shrink_to, insert_entry) may move every element to another bucket, in place or into a new allocation, without
+    telling anybody.  A table of entries may therefore only be operated through the no-grow primitives; relocation is the
+    crate's own business (allocate a new table, re-insert, relink).  Expected number of sites: 0; the scan itself is counted."""
+    r, cg = ctx.roles, ctx.cg
+    n = 0
+    for b in ctx.facts.bodies:
+        if b.file.endswith("mem_size.rs"):
+            continue
+        n += 1
+        for c in cg.calls.get(b.path, []):
+            if not (c.model and c.model.get("table") == "insert_grow"):
+                continue
+            if not any(r.entry in ty_adts(a_) for a_ in (c.fn.get("args") or [])):
+                continue        # a RawTable of something else
+            res.violate("%s:%s:relocating-table-primitive:%s" % (prop, b.path, norm(c.resolved or c.nominal).split("::")[-1]),
+                        "`%s` calls `%s` on a table of entries: hashbrown may move the entries to other buckets (in place or into a new "
+                        "allocation) while the links of the intrusive list keep pointing at the old ones"
+                        % (b.path, norm(c.resolved or c.nominal)), c.loc, {}, "%s no bucket relocation behind the list's back" % prop)
+    res.count("%s bodies scanned for relocating table primitives" % prop, n)
+    res.floor("%s bodies scanned for relocating table primitives" % prop, n, 100)
+    res.oblige("%s no growing hashbrown primitive (insert / reserve / try_reserve / shrink_to / insert_entry) is called on a table of entries"
+               % prop, True, key="%s:no-relocating-primitive" % prop)
+
+
+# =====================================================================================================================
 #  C15: retain
 # =====================================================================================================================
 def c15(ctx, res):
@@ -585,6 +615,28 @@ def c17(ctx, res):
                        loc=span_str(b.span), rule="C17 no safety debt in Drop",
                        msg="`%s` hands out a copy-out iterator holding `&mut` cache but %s: if the iterator is leaked (mem::forget) the cache keeps "
                            "entries that were moved out" % (b.path, "; ".join(uniq)))
+        # ... and between construction and Drop the iterator must leave the cache alone: a step method (next, next_back, size_hint,
+        # ...) that stores into a cache field or rewrites a link of a list node through a pointer re-attaches moved-out entries to
+        # the still live cache (the nodes next to the first/last drained entry are the cache's own seal)
+        for b in ctx.facts.bodies:
+            if not (b.impl_self and b.impl_self.get("name") == adt) or b.is_closure or b in ctors:
+                continue
+            if b.impl_trait == "std::ops::Drop":
+                continue
+            res.count("C17 step methods of &mut holders")
+            tr = ctx.eff.trans(b)
+            probs = []
+            for (p_, (f_, _bb, _si, via)) in tr["w_entry"]:
+                if via and f_ in r.links:
+                    probs.append("`%s` stores the link `%s` of a list node through a pointer" % (p_, f_))
+            for (p_, (f_, _bb, _si, via)) in tr["w_cache"]:
+                probs.append("`%s` writes the cache field `%s`" % (p_, f_))
+            uniq = sorted(set(probs))
+            res.oblige("C17 `%s` (a step of a draining iterator that borrows the cache) touches neither the cache nor the links of list "
+                       "nodes" % b.path, not uniq, detail=uniq, key="C17:%s:step-leaves-cache-alone" % b.path, loc=span_str(b.span),
+                       rule="C17 no safety debt in Drop",
+                       msg="`%s` runs while the cache is borrowed by a draining iterator and %s: if the iterator is then leaked the cache is "
+                           "attached to entries the iterator owns" % (b.path, "; ".join(uniq)))
     # borrowing iterators: no Drop impl
     cn = [a for a, _ in cursor_adts(ctx) if a not in co]
     for adt in cn + sorted(holders_of(ctx, cn)):
@@ -926,7 +978,7 @@ def hash_functions(ctx):
     return [b for b in ctx.facts.bodies if ctx.eff.direct[b.path]["hash"] and b.j.get("output", {}).get("s") == "u64"]
 
 
-def c04(ctx, res):
+def c04(ctx, res, only_hash_agreement=False):
     r, cg, eff = ctx.roles, ctx.cg, ctx.eff
     te = _te(ctx, False)
     hf = hash_functions(ctx)
@@ -1028,21 +1080,39 @@ def c04(ctx, res):
                 continue
             res.count("C04.1 hash-passing call sites")
             probs = []
-            for p in te.paths(b, max_paths=60):
+            try:
+                hp_paths = te.paths(b, max_paths=400, max_visits=2)       # (one unrolled iteration: the call may sit in a loop body)
+            except TooComplex:
+                hp_paths = te.paths(b, max_paths=60)
+            reached = False
+            for p in hp_paths:
                 pr = te.eval_path(b, p)
                 for (bb, full, argt, val, cc) in pr.calls:
                     if cc is not c:
                         continue
+                    reached = True
                     h, e = argt[hpos[0]], argt[epos[0]]
                     if h[0] == "param":
                         continue
                     kh = _hash_key(h, hnames, None, r, probs, allow_closure=True)
                     if kh is not None and not _key_of(kh, e):
                         probs.append("passes the hash of `%s` with the entry `%s`" % (show(kh)[:100], show(e)[:100]))
+                    # the hash must come from the hash builder of the very cache whose table receives the entry (a clone's builder
+                    # need not hash like the original's)
+                    if h[0] == "call" and tins and r.is_cache_ty(tins[0].get("ty", tins[0])) and h[2]:
+                        hb = strip_refs(h[2][0])
+                        recv = strip_refs(argt[0])
+                        if hb[0] == "field" and hb[2] == r.HB and show(strip_refs(hb[1])) != show(recv):
+                            probs.append("passes to a method of the cache `%s` a hash built with the hash builder of `%s`"
+                                         % (show(recv)[:80], show(strip_refs(hb[1]))[:80]))
+            if not reached:
+                probs.append("the call site is not reached by any enumerated path (not judged: fail closed)")
             uniq = sorted(set(probs))
             res.oblige("C04.1 `%s` passes to `%s` the hash of the very entry it passes" % (b.path, c.target.path), not uniq, detail=uniq,
                        key="C04.1:%s:passes-hash:%s" % (b.path, c.target.name), loc=c.loc, rule="C04.1 hash/eq agreement",
                        msg="`%s` -> `%s`: %s" % (b.path, c.target.path, "; ".join(uniq)))
+    if only_hash_agreement:
+        return
     # ---- C04.3 results are projected from the entry the lookup returned
     te2 = _te(ctx, True)
     n_res = 0
